@@ -165,22 +165,23 @@ def r3(ctx, rep):
     rep.rule("C01.R3", "filters before the aggregate go to WHERE, those after it to HAVING, AND-ed in order", floor=5)
     syn = ctx.syn
     f = syn.fn("gen_query::translate_select_pipeline", crate="prqlc")
-    locs = {}
+    import alpha
+    A = alpha.Inliner(f)
+    # the pair bound from `.break_up(|t| matches!(t, Aggregate | Union))`, whatever its names are
+    first = second = None
     for st in f["body"]["s"]:
-        if st.get("k") == "local":
-            locs[show(st["pat"])] = st.get("init")
-    bu = locs.get("(before_agg, after_agg)")
-    ok = bu is not None and bu.get("k") == "mcall" and bu["m"] == "break_up" and "Transform::Aggregate" in show_pat_any(bu)
-    rep.check(ok, "break-at-aggregate", "the pipeline must be broken up at the Aggregate", file=f["file"], line=f["l"], fn=f["path"])
-    w, h = show(locs.get("where_"), maxdepth=8), show(locs.get("having"), maxdepth=8)
-    rep.check(w == "filter_of_conditions(before_agg.pluck(|t| t.into_filter()), ctx)?", "where", f"WHERE must be built from the filters BEFORE the aggregate; found `{w}`", file=f["file"], line=f["l"], fn=f["path"])
-    rep.check(h == "filter_of_conditions(after_agg.pluck(|t| t.into_filter()), ctx)?", "having", f"HAVING must be built from the filters AFTER the aggregate; found `{h}`", file=f["file"], line=f["l"], fn=f["path"])
+        if st.get("k") == "local" and st["pat"].get("k") == "p_tuple" and len(st["pat"]["e"]) == 2 and st.get("init", {}).get("k") == "mcall" and st["init"]["m"] == "break_up":
+            if "Transform::Aggregate" in show_pat_any(st["init"]):
+                first, second = [show(x).replace("mut ", "") for x in st["pat"]["e"]]
+    rep.check(first is not None, "break-at-aggregate", "the pipeline must be broken up at the Aggregate", file=f["file"], line=f["l"], fn=f["path"])
     sel = None
     for n in walk(f["body"]):
         if n.get("k") == "struct" and last_seg(n["p"]) == "Select":
-            sel = {a: show(b) for a, b in n["f"]}
-    rep.check(sel is not None and sel.get("selection") == "where_" and sel.get("having") == "having", "select-fields",
-              f"Select.selection must be the WHERE condition and Select.having the HAVING condition; found {sel and (sel.get('selection'), sel.get('having'))}", file=f["file"], line=f["l"], fn=f["path"])
+            sel = {a: A.show(b) for a, b in n["f"]}
+    w, h = (sel or {}).get("selection"), (sel or {}).get("having")
+    rep.check(first is not None and w == f"filter_of_conditions({first}.pluck(|_c0| _c0.into_filter()), ctx)?", "where", f"Select.selection (WHERE) must be built from the filters BEFORE the aggregate; found `{w}`", file=f["file"], line=f["l"], fn=f["path"])
+    rep.check(second is not None and h == f"filter_of_conditions({second}.pluck(|_c0| _c0.into_filter()), ctx)?", "having", f"Select.having (HAVING) must be built from the filters AFTER the aggregate; found `{h}`", file=f["file"], line=f["l"], fn=f["path"])
+    rep.check(sel is not None and "selection" in sel and "having" in sel, "select-fields", "the Select must carry a selection and a having field", file=f["file"], line=f["l"], fn=f["path"])
     a = syn.fn("gen_query::all", crate="prqlc")
     st = None
     for n in walk(a["body"]):
@@ -388,6 +389,17 @@ def r7(ctx, rep):
     rep.check(want.get("remove:filter-null") and has_filter and nulls, "recogniser:except:null-filter", "EXCEPT is recognised only for a left join followed by the all-null filter on the bottom's columns (std.remove)",
               file=f["file"], line=f["l"], fn=f["path"])
     rep.check(want.get("intersect") == "Inner" and want.get("remove") == "Left", "std:sides", f"std.prql: intersect joins inner and remove joins left; found {want}")
+    # a set operation has only the top's columns: both recognisers must give up when the output still uses a column of the bottom
+    for rec in ("intersect", "except"):
+        f = syn.fn("preprocess::" + rec, crate="prqlc")
+        ok = False
+        for n in walk(f["body"]):
+            if n.get("k") == "if" and any(x.get("k") == "continue" for x in walk(n["t"])):
+                c = show(n["c"], maxdepth=10)
+                if "bottom" in c and "output.contains(" in c and ".any(" in c:
+                    ok = True
+        rep.check(ok, f"recogniser:{rec}:bottom-unused", f"preprocess::{rec} must skip the rewrite (`continue`) when any column of the bottom relation is in the output: "
+                  "after the rewrite those columns do not exist, so they silently vanish from the result", file=f["file"], line=f["l"], fn=f["path"])
 
 
 def r8(ctx, rep):
